@@ -25,12 +25,19 @@ type Obligation struct {
 	Goal    *smt.Term
 	Pos     string
 	Props   []string
+	Split   *CaseSplit // prove by exhaustive case analysis on a small-range loop variable
 	// filled by the driver
 	Verdict string
 	Solver  string
 	Seconds float64
 	Raw     string
 	Model   map[string]uint64
+}
+
+// CaseSplit: the variable (a fresh SMT constant) ranges over [Lo,Hi).
+type CaseSplit struct {
+	Var    *smt.Term
+	Lo, Hi int
 }
 
 // FnContract binds a parsed contract to SSA.
@@ -45,9 +52,13 @@ type Engine struct {
 
 	Contracts   map[*ssa.Function]*FnContract
 	Transparent map[*ssa.Function]bool
+	Opaque      map[*ssa.Function]bool // recursive spec functions: uninterpreted + one-step unfolding per occurrence
+	unfolding   map[*ssa.Function]bool
+	unfolded    map[string]bool
 	RepoPrefix  string // module path prefix of functions that must have contracts
 
 	Assumptions []*smt.Term
+	GoalAssume  map[int]bool // indices of assumptions that are assumed proof goals (assert-then-assume)
 	Obls        []*Obligation
 	Notes       []string
 
@@ -92,12 +103,15 @@ func NewEngine(prog *ssa.Program) *Engine {
 	e := &Engine{X: smt.NewCtx(), Prog: prog}
 	e.Contracts = map[*ssa.Function]*FnContract{}
 	e.Transparent = map[*ssa.Function]bool{}
+	e.Opaque = map[*ssa.Function]bool{}
+	e.unfolding = map[*ssa.Function]bool{}
 	e.reset()
 	return e
 }
 
 func (e *Engine) reset() {
 	e.Assumptions = nil
+	e.GoalAssume = map[int]bool{}
 	e.Obls = nil
 	e.pc = e.X.True
 	e.counters = map[string]int{}
@@ -114,6 +128,8 @@ func (e *Engine) reset() {
 	e.Inlined = map[string]bool{}
 	e.frameLocs = nil
 	e.frameOn = false
+	e.unfolded = map[string]bool{}
+	e.unfolding = map[*ssa.Function]bool{}
 }
 
 func (e *Engine) assume(f *smt.Term) {
@@ -145,7 +161,11 @@ func (e *Engine) oblige(kind, detail string, goal *smt.Term, pos token.Pos) {
 		ob.Verdict = "trivial"
 	}
 	e.Obls = append(e.Obls, ob)
+	na := len(e.Assumptions)
 	e.assume(goal)
+	if len(e.Assumptions) > na {
+		e.GoalAssume[na] = true
+	}
 }
 
 func (e *Engine) tagOf(t types.Type) int {
@@ -169,7 +189,8 @@ type frame struct {
 	inPC     map[*ssa.BasicBlock]*smt.Term
 	outSt    map[*ssa.BasicBlock]*State
 	edge     map[[2]int]*smt.Term
-	st       *State // state of the block being executed
+	st       *State    // state of the block being executed
+	local    *smt.Term // path condition of the current block relative to the function entry
 	fc       *FnContract
 	loops    map[*ssa.BasicBlock]*loopCtx
 	headers  []*ssa.BasicBlock
@@ -177,6 +198,7 @@ type frame struct {
 	rets     []retRec
 	entrySt  *State
 	olds     map[string]Val
+	panics   bool // an explicit panic was reached on some path
 }
 
 type retRec struct {
@@ -306,7 +328,11 @@ func (e *Engine) runFunc(fn *ssa.Function, args []Val, bindings []Val, st *State
 	for i := len(f.rets) - 2; i >= 0; i-- {
 		res = e.iteVal(f.rets[i].pc, f.rets[i].val, res)
 	}
-	return res, out, e.X.Or(conds...)
+	if !f.panics && len(f.headers) == 0 {
+		// loop-free and panic-free: every path returns: the return condition is the entry condition
+		return res, out, f.base
+	}
+	return res, out, e.X.And(f.base, e.X.Or(conds...))
 }
 
 func (e *Engine) failNow(kind, detail string, pos token.Pos) {
@@ -316,6 +342,7 @@ func (e *Engine) failNow(kind, detail string, pos token.Pos) {
 	e.specDepth = saved
 	// do not keep "false" as an assumption
 	e.Assumptions = e.Assumptions[:len(e.Assumptions)-1]
+	delete(e.GoalAssume, len(e.Assumptions))
 	if ob := e.Obls[len(e.Obls)-1]; ob.Verdict == "trivial" {
 		ob.Verdict = ""
 	}
@@ -326,7 +353,7 @@ func (e *Engine) execBlock(f *frame, b *ssa.BasicBlock, entry *State) {
 	var sts []*State
 	var preds []*ssa.BasicBlock
 	if b.Index == 0 {
-		conds = append(conds, f.base)
+		conds = append(conds, e.X.True)
 		sts = append(sts, entry)
 		preds = append(preds, nil)
 	} else {
@@ -352,7 +379,8 @@ func (e *Engine) execBlock(f *frame, b *ssa.BasicBlock, entry *State) {
 	}
 	pcIn := e.X.Or(conds...)
 	f.inPC[b] = pcIn
-	e.pc = pcIn
+	f.local = pcIn
+	e.pc = e.X.And(f.base, pcIn)
 	st := e.mergeStates(conds, sts)
 	f.st = st
 	// φ nodes from forward edges
